@@ -758,8 +758,10 @@ def _main(run, tier, blocks, jobs, cap_s, tmpdir, want_z, want_p, want_s):
         run.extra["vacuity"] = vac
         run.extra["blocks"] = block_rows
         for k in ("with_symbolic_chunk", "with_overlapping_self_copy", "with_chunk_boundary_aligned_write",
-                  "with_write_splitting_symbolic_chunk", "with_nested_bytevec_chunk", "with_write_after_fork",
+                  "with_write_splitting_symbolic_chunk", "with_write_after_fork",
                   "sensitivity_twins_sat"):
+            # (nested ByteVec chunks no longer arise since /repo's set_slice stores the chunks of a ByteVec value on the
+            #  aligned path too; the counter is reported but no longer mandatory)
             if vac[k] == 0:
                 run.harness_error(f"vacuity: {k} = 0")
         print("  vacuity: " + ", ".join(f"{k}={v}" for k, v in vac.items()), flush=True)
